@@ -6,8 +6,9 @@ run):
   `genBuild rank zero sample bins`   `__create_centrality_classes` (guards, ranking, class loop, stored min / max)
   `genLookup mins x`                 `get_centrality_class`
   `genRank toNat n edge`             the cut index `int(number_events * edge / 100.0)` (`int()` abstract)
+  `genInit lo hi edges`              the edge cleaning of `__init__` (sortedness test + sort, duplicate removal, range check)
 
-`gen_build_eq`, `gen_lookup_eq`, `gen_rank_eq` say that they are the hand-written model of `Core/Centrality.lean`
+`gen_build_eq`, `gen_lookup_eq`, `gen_rank_eq`, `gen_init_eq` say that they are the hand-written model of `Core/Centrality.lean`
 on every input (proofs in `Lemmas/CentralityGen.lean`); the remaining theorems are the C19 statements of
 `Props/C19.lean` with the generated functions in place of the model, under the same hypotheses.  A change of the
 source inside the translated fragment changes `Gen/Centrality.lean`; if it changes the meaning, these proofs no
@@ -48,6 +49,25 @@ theorem gen_classes_eq [LE γ] [LT γ] [DecidableLE γ] [DecidableLT γ] [Decida
     (rank : γ → Nat) (zero : α) (sample : List α) (edges : List γ) :
     genBuild rank zero sample (cleanEdges edges) = classesOf rank zero sample edges := by
   rw [gen_build_eq]; rfl
+
+/-- **Tie T.** The regenerated edge cleaning of `__init__` (sortedness test, in-place sort, duplicate removal,
+range check) raises `ValueError` exactly when an edge lies outside `[lo, hi]` and otherwise yields `cleanEdges`. -/
+theorem gen_init_eq [LE γ] [LT γ] [DecidableLE γ] [DecidableLT γ] [DecidableEq γ] (lo hi : γ) (edges : List γ) :
+    genInit lo hi edges = if edgesInRange lo hi edges then .ok (cleanEdges edges) else .error .value :=
+  genInit_eq lo hi edges
+
+/-- **Tie T, the constructor as a whole**: regenerated `__init__` followed by the regenerated
+`__create_centrality_classes` on the list it stored = range check, then `classesOf` of the model. -/
+theorem gen_constructor_eq [LE γ] [LT γ] [DecidableLE γ] [DecidableLT γ] [DecidableEq γ]
+    (rank : γ → Nat) (lo hi : γ) (zero : α) (sample : List α) (edges : List γ) :
+    (match genInit lo hi edges with
+      | .error e => .error e
+      | .ok bins => genBuild rank zero sample bins) =
+      if edgesInRange lo hi edges then classesOf rank zero sample edges else .error .value := by
+  rw [gen_init_eq]
+  by_cases h : edgesInRange lo hi edges = true
+  · simp only [h, if_true]; exact gen_classes_eq rank zero sample edges
+  · simp only [h]; rfl
 
 end eq
 
@@ -146,6 +166,11 @@ example : genBuild (fun r : Nat => r) (0 : Int) [3, 5, 5, 1, 5, 2, 5, 0] [0, 2, 
 
 example : [6, 5, 4, 3, 2, 1, 0].map (genLookup [Bnd.fin (5 : Int), .fin 3, .fin 3, .fin 0]) =
     [.ok 0, .ok 0, .ok 1, .ok 1, .ok 3, .ok 3, .ok 3] := by decide
+
+/-- unsorted and duplicated edges; an edge above 100 -/
+example : genInit (0 : Int) 100 [50, 0, 100, 50, 0] = .ok [0, 50, 100] := by decide
+example : genInit (0 : Int) 100 [0, 10, 10, 100] = .ok [0, 10, 100] := by decide
+example : genInit (0 : Int) 100 [0, 50, 120] = .error .value := by decide
 
 /-- an empty leading class stores `inf`; fewer than 4 events, a negative multiplicity, a boundary beyond the sample -/
 example : genBuild (fun r : Nat => r) (0 : Int) [10, 9, 8, 7] [0, 0, 2, 4] =
